@@ -19,7 +19,7 @@ use crate::rng::Rng;
 /// challenges grouped by drawing stage:
 /// 0: betas, gammas, extra deltas (after wires cap)   1: alphas (after Z cap)   2: zeta (after quotient cap)
 /// 3: fri alpha (after openings)   4+i: fri beta i (after commit cap i)   last: pow response + query indices
-fn stages(ch: &ProofChallenges<F, D>) -> Vec<Vec<u64>> {
+pub fn stages(ch: &ProofChallenges<F, D>) -> Vec<Vec<u64>> {
     let e = |x: &<F as Extendable<D>>::Extension| vec![x.0[0].to_canonical_u64(), x.0[1].to_canonical_u64()];
     let mut st = vec![];
     let mut s0: Vec<u64> = ch.plonk_betas.iter().chain(ch.plonk_gammas.iter()).map(|x| x.to_canonical_u64()).collect();
@@ -62,7 +62,7 @@ impl PiHash for Pwpi {
 /// every stage >= first_changed must differ in every full-field challenge; every earlier stage must be equal.
 /// The last stage holds the PoW response (full field) and the query indices (small range: only
 /// the vector as a whole is required to differ).
-fn compare(base: &[Vec<u64>], new: &[Vec<u64>], first_changed: usize) -> (bool, String) {
+pub fn compare(base: &[Vec<u64>], new: &[Vec<u64>], first_changed: usize) -> (bool, String) {
     if base.len() != new.len() { return (false, "stage count differs".into()); }
     for (i, (a, b)) in base.iter().zip(new.iter()).enumerate() {
         if i < first_changed {
@@ -198,6 +198,11 @@ pub fn run(seed: u64, tier: &str, w: &mut dyn Write) -> usize {
             writeln!(w, "c04 {bi} query_data_not_in_transcript 0 = {}", (new == base) as u8).unwrap();
             n += 1;
         }
+    }
+    // Keccak configuration (bytes -> field packing of digests is part of the transcript)
+    for (k, ci) in [3usize, 0].iter().enumerate() {
+        n += crate::kcfg::c04_keccak(&mut r, tier, w, &cfgs[*ci].1, k);
+        if tier != "thorough" { break; }
     }
     n
 }
